@@ -139,6 +139,9 @@ pub fn cms_history(ctx: &mut Ctx, nops: u64) {
         let r = ctx.rng.below(100);
         if r < 30 {
             ctx.op(format!("cms.add {} {}", i, key));
+            if ctx.rng.chance(1, 2) {
+                ctx.op(format!("cms.query {} {}", i, key));
+            }
         } else if r < 50 {
             let n = if ctx.rng.chance(1, 10) { cmax / ctx.rng.range(2, 5) } else { ctx.rng.below(20) };
             let a = ctx.op(format!("cms.addn {} {} {}", i, key, n));
